@@ -93,6 +93,10 @@ class Monitor:
     def on_build(self, conn, pkt, pre=None):
         pass
 
+    def after_build(self, conn, pkt, pre=None):
+        """Called after every _build_packet call, also when nothing was built (pkt is None)."""
+        pass
+
     def on_ack(self, conn, seq, acked):
         pass
 
@@ -312,6 +316,10 @@ class ClientNode:
             def cb(value, self=self, inc=inc):
                 self.connect_cbs.append((self.k.now, inc, value))
                 self.k.rec("connect_cb", self.name, inc, value)
+                if value:
+                    for sop in op.get("on_connect", ()):      # the application sends right from its connect callback
+                        w.probe("send_from_connect_callback")
+                        w.app_send(self.name, self.client, sop)
         self.connect_t = self.k.now
         c.connect(w.server_addr_for(self), callback=cb)
         w.name_conn(c.conn, "%s#%d" % (self.name, inc))
@@ -344,6 +352,16 @@ class ClientNode:
         if self.client is not None:
             self.w.app_event(self.name, self.inc, "disconnect_call")
             self.client.disconnect()
+
+    def op_rechallenge(self, op):
+        """A protocol-complete but misbehaving client: it sends its (valid, encrypted) challenge response once more."""
+        c = self.client
+        if c is None or c.conn is None or not c.connected():
+            return
+        reply = conn_mod.HandshakeClientChallengeResponseMessage()
+        reply.token = c.conn.token
+        self.w.probe("client_resent_challenge_response")
+        c.conn._send_type(PacketType.CHALLENGE_RESP, reply.dumpb(), RetryMode.NONE, None)
 
     def op_crash(self, op):
         self.w.app_event(self.name, self.inc, "crash")
@@ -378,6 +396,7 @@ class World:
         self.seams = Seams(self.k, self.net, c["seed"], mtu=c["mtu"], reactor_lag_max=c["reactor_lag"])
         self.monitors = list(monitors)
         self.custom_ops = {}
+        self.sockerrs = []         # (t0, t1, client addr): the server's sendto towards that address fails in [t0, t1)
         self.after_build = []      # fn(world) called once server and client nodes exist, before the run starts
         self.current_client = None # ClientNode whose update() is running
         self.violations = []
@@ -576,6 +595,8 @@ class World:
                 if pkt is not None:
                     for m, p in zip(mon_build, pre):
                         m.on_build(conn, pkt, p)
+                for m, p in zip(mon_build, pre):
+                    m.after_build(conn, pkt, p)
                 return pkt
             S._set(CB, "_build_packet", _build_packet)
         if mon_ack:
@@ -639,24 +660,38 @@ class World:
         self.root_key = crypto_mod.EllipticCurvePrivateKey.new()
         self.root_pub = self.root_key.getPublicKey()
         ctxt = self.ctxt = context_mod.ServerContext(self.handler, self.root_key)
-        ctxt.setInterval(sc["interval"])
-        if sc.get("keep_alive") is not None:
-            ctxt.setKeepAliveInterval(sc["keep_alive"])
-        if sc.get("conn_timeout") is not None:
-            ctxt.setConnectionTimeout(sc["conn_timeout"])
-        if sc.get("temp_timeout") is not None:
-            ctxt.setTempConnectionTimeout(sc["temp_timeout"])
-        if sc.get("msg_timeout") is not None:
-            ctxt.setMessageTimeout(sc["msg_timeout"])
-        if sc.get("blocklist"):
-            ctxt.setBlockList(set(sc["blocklist"]))
+
+        def configure():
+            ctxt.setInterval(sc["interval"])
+            if sc.get("keep_alive") is not None:
+                ctxt.setKeepAliveInterval(sc["keep_alive"])
+            if sc.get("conn_timeout") is not None:
+                ctxt.setConnectionTimeout(sc["conn_timeout"])
+            if sc.get("temp_timeout") is not None:
+                ctxt.setTempConnectionTimeout(sc["temp_timeout"])
+            if sc.get("msg_timeout") is not None:
+                ctxt.setMessageTimeout(sc["msg_timeout"])
+            if sc.get("blocklist"):
+                ctxt.setBlockList(set(sc["blocklist"]))
+        # "settings made on the ServerContext before the server starts": both orders are legal - configure and then
+        # construct the server object, or construct it first and configure before starting it
+        late = bool(sc.get("configure_after_construction"))
+        if not late:
+            configure()
+        else:
+            ctxt.setInterval(sc["interval"])        # (the thread object copies the interval for its statistics)
+            self.probe("context_configured_after_server_construction")
         self.tserver = None
         self.userver = None
         entry = c["entry"]
+        self.seams.server_send_hook = self._maybe_sockerr
         if entry == "bare":
             self.ssock = SimSocket(self.net, SERVER_ADDR, "S", self.snode, blocking=False)
+            self.ssock.send_hook = self._maybe_sockerr
             th = self.server_thread = server_mod.UdpServerThread(self.ssock, ctxt)
             self.net.bind(SERVER_ADDR, "S", self.snode, self._bare_rx)
+            if late:
+                configure()
             th.start()
         elif entry == "twisted":
             ts = self.tserver = twisted_mod.TwistedServer(ctxt, SERVER_ADDR, install_signals=False)
@@ -664,18 +699,30 @@ class World:
 
             class Transport:
                 def write(self_t, datagram, addr):
+                    w._maybe_sockerr(addr)
                     w.net.send(SERVER_ADDR, tuple(addr[:2]), bytes(datagram))
             ts.transport = Transport()
             self.server_thread = ts.thread
             self.net.bind(SERVER_ADDR, "S", self.snode, lambda data, src: ts.datagramReceived(data, src))
+            if late:
+                configure()
             ts.thread.start()
         elif entry == "udpserver":
             us = self.userver = server_mod._UdpServer(ctxt, SERVER_ADDR)
+            if late:
+                configure()
             self.recv_thread = k.spawn("S-recv", self.snode, us.run)
             self.server_thread = None     # known once us.run() has created it
         else:
             raise HarnessError("entry?")
         k.cur_node = None
+
+    def _maybe_sockerr(self, addr):
+        for t0, t1, a in self.sockerrs:
+            if t0 <= self.k.now < t1 and tuple(addr[:2]) == a:
+                self.probe("server_sendto_error_injected")
+                import errno
+                raise OSError(errno.ENOBUFS, "No buffer space available (injected)")
 
     def _bare_rx(self, data, src):
         # what the repository's own tests do between socket and loop
@@ -711,6 +758,8 @@ class World:
                         k.at(op["t"], self.snode, self.op_shutdown, op, tag="reactor")
                     elif op["op"] == "hraise":
                         self.handler.raise_at[(op["event"], op["nth"])] = True
+                    elif op["op"] == "sockerr":
+                        self.sockerrs.append((op["t"], op["t"] + op["d"], client_addr(op["c"])))
                     elif op["op"] == "hkick":
                         self.handler.kick_at[(op["event"], op["nth"])] = (op["c"], bool(op.get("shutdown")))
                     elif op["op"] == "hstall":
